@@ -12,7 +12,6 @@ use acb::fx::io::testlib::new_test_rate_loader;
 use acb::portfolio::io::tx_csv::TxCsvParseOptions;
 use acb::portfolio::render::RenderTable;
 use acb::portfolio::PortfolioSecurityStatus;
-use acb::util::decimal::GreaterEqualZeroDecimal;
 use acb::util::rw::{DescribedReader, WriteHandle};
 use rust_decimal::Decimal;
 use serde_json::{json, Value};
@@ -21,16 +20,9 @@ use crate::ledger::{clean, ledger_segments, panic_text};
 use crate::model::*;
 
 fn opening_status(case: &Case) -> HashMap<String, PortfolioSecurityStatus> {
-    let mut m = HashMap::new();
-    for (sec, (n, c)) in &case.opening {
-        let n = GreaterEqualZeroDecimal::try_from(n.dec().unwrap_or_default()).unwrap();
-        let c = GreaterEqualZeroDecimal::try_from(c.dec().unwrap_or_default()).unwrap();
-        m.insert(
-            sec.clone(),
-            PortfolioSecurityStatus { security: sec.clone(), share_balance: n, all_affiliate_share_balance: n, total_acb: Some(c) },
-        );
-    }
-    m
+    // through the parser of the -b / web UI strings, as the front ends do
+    let specs: Vec<String> = case.opening.iter().map(|(sec, (n, c))| format!("{}:{}:{}", sec, n.text(), c.text())).collect();
+    acb::app::input_parse::parse_initial_status(&specs).unwrap_or_default()
 }
 
 fn readers(case: &Case) -> Vec<DescribedReader> {
